@@ -767,6 +767,8 @@ class Interp:
             if a is b:
                 return True
             raise OutOfSubset('object equality')
+        if isinstance(a, SOpaque) and isinstance(b, SOpaque) and a.kind == 'decimal' and b.kind == 'decimal':
+            return self.lib.dec_eq(a, b)
         if isinstance(a, SOpaque) and isinstance(b, SOpaque) and a.t is not None and b.t is not None \
                 and a.kind == b.kind and a.t.eq(b.t):
             if a.kind in ('decimal',):
